@@ -238,22 +238,67 @@ def run_kind(ctx, f, label, kind, tname, P, T, names):
             os.remove(tmp)
 
 
+class NoProgress(RuntimeError):
+    pass
+
+
+class Budgeted(io.BytesIO):
+    """BytesIO with a budget of stream operations proportional to its length: a parser that keeps asking
+    without ever consuming (a logical-step watchdog, not a wall-clock one) is stopped and reported."""
+
+    def __init__(self, data):
+        super().__init__(data)
+        self._budget = 400 * len(data) + 50000
+
+    def _spend(self):
+        self._budget -= 1
+        if self._budget < 0:
+            raise NoProgress("vp: stream operation budget exhausted")
+
+    def read(self, *a):
+        self._spend()
+        return super().read(*a)
+
+    def readline(self, *a):
+        self._spend()
+        return super().readline(*a)
+
+    def tell(self):
+        self._spend()
+        return super().tell()
+
+    def seek(self, *a):
+        self._spend()
+        return super().seek(*a)
+
+
 def stack_checks(ctx, pool, rng, n_stacks):
     f = __import__("fickling.fickle", fromlist=["x"])
     agg = ctx.agg
+    stacks = []
     for i in range(n_stacks):
         k = rng.randint(1, 6)
         parts = [rng.choice(pool) for _ in range(k)]
-        data = b"".join(parts)
-        for kind in ("bytes", "bytesio", "wrapper"):
+        stacks.append((i, k, parts, b"".join(parts)))
+    # the budgeted stream kind goes first over all stacks: if stack parsing does not terminate it is seen
+    # there, and the unbudgeted kinds (which would hang this child) are skipped
+    for kind in ("bytesio", "bytes", "wrapper"):
+        for i, k, parts, data in stacks:
             ch = h(b"stack|" + kind.encode() + data)
             if not ctx.mine(ch):
                 continue
             if not agg.case(ch, k > 1, {"stack_of": k, "stream": kind, "part_lens": [len(x) for x in parts]}):
                 continue
             try:
-                src = data if kind == "bytes" else (io.BytesIO(data) if kind == "bytesio" else NonSeekable(data))
+                src = data if kind == "bytes" else (Budgeted(data) if kind == "bytesio" else NonSeekable(data))
                 sp = f.StackedPickle.load(src)
+            except NoProgress:
+                agg.violation("stack-parse-no-progress",
+                              f"parsing a concatenation of {k} pickles as a stack keeps re-reading the stream without "
+                              f"consuming it (stopped after {400 * len(data) + 50000} stream operations)",
+                              {"label": "stack", "hex": data[:3000].hex(), "k": k, "stream": kind,
+                               "part_lens": [len(x) for x in parts]})
+                return
             except NotImplementedError:
                 agg.count("refused_unmodelled_opcode")
                 continue
@@ -270,6 +315,7 @@ def stack_checks(ctx, pool, rng, n_stacks):
                               f"stack of {k} pickles parsed into {len(sp)} elements or elements differ from the parts",
                               {"label": "stack", "hex": data[:3000].hex(), "k": k, "stream": kind,
                                "part_lens": [len(x) for x in parts], "got_lens": [len(x) for x in got]})
+    for i, k, parts, data in stacks:
         # stack followed by an undecodable tail: observed, not asserted
         if i % 5 == 0:
             try:
